@@ -183,3 +183,46 @@ func verifGoRangePtr(u, v *[4]uint64) uint64 {
 //@ func verifGoRangePtr
 //@   mode bv
 //@   ensures r: result == (u[0] ^ v[0]) | (u[1] ^ v[1]) | (u[2] ^ v[2]) | (u[3] ^ v[3]) | ((v[0] | v[1] | v[2] | v[3]) & 1) | 7
+
+func verifGoBytesShift(b []byte) (uint64, uint64) {
+	var v uint64
+	for i := 0; i < 8; i++ {
+		v = v<<8 | uint64(b[i])
+	}
+	w := uint64(b[0])<<56 ^ uint64(b[1])<<48 ^ uint64(b[7])
+	return v, w
+}
+
+//@ func verifGoBytesShift
+//@   mode int
+//@   lens b 8
+//@   requires len(b) == 8
+//@   ensures v: result0 == os2ip(b)
+//@   ensures w: result1 == b[0]*pow2(56) + b[1]*pow2(48) + b[7]
+
+func verifGoMask(x, y, f uint64) (uint64, uint64, uint64) {
+	m := -f
+	return (x & m) | (y &^ m), x ^ m, (f - 1) & x
+}
+
+//@ func verifGoMask
+//@   mode int
+//@   requires f <= 1
+//@   ensures sel: result0 == ite(f == 1, x, y)
+//@   ensures inv: result1 == ite(f == 1, pow2(64) - 1 - x, x)
+//@   ensures sub: result2 == ite(f == 1, 0, x)
+
+func verifGoByteExtract(x uint64) [8]byte {
+	var out [8]byte
+	w := x
+	for i := 7; i >= 0; i-- {
+		out[i] = byte(w)
+		w >>= 8
+	}
+	out[0] ^= byte(x>>56) ^ uint8(x>>56&0xff)
+	return out
+}
+
+//@ func verifGoByteExtract
+//@   mode int
+//@   ensures v: os2ip(result) == x
